@@ -549,6 +549,18 @@ class SpecEnv(object):
             return b2v(z3.Select(ctx.engine.heap_get(ctx.st, d, "has").z, to_val(k)))
         P["haskey"] = p_haskey
 
+        def p_unchanged_except(ctx, d, key):
+            """every entry of dict d other than `key` is what it was at function entry"""
+            m1, h1 = ctx.engine.heap_get(ctx.st, d, "map").z, ctx.engine.heap_get(ctx.st, d, "has").z
+            m0, h0 = ctx.engine.heap_get(ctx.pre, d, "map").z, ctx.engine.heap_get(ctx.pre, d, "has").z
+            k = to_val(key)
+            return b2v(z3.And(m1 == z3.Store(m0, k, z3.Select(m1, k)), h1 == z3.Store(h0, k, z3.Select(h1, k))))
+        P["unchanged_except"] = p_unchanged_except
+
+        def p_dict_empty(ctx, d):
+            return b2v(ctx.engine.heap_get(ctx.st, d, "has").z == z3.K(Val, z3.BoolVal(False)))
+        P["dict_empty"] = p_dict_empty
+
         def p_ite(ctx, c, a, b):
             return merge_values(truth(c), a, b)
         P["ite"] = p_ite
